@@ -26,6 +26,8 @@ trait SignedInteger:
     fn from_i64(i: i64) -> Self;
 
     fn from_u32(u: u32) -> Self;
+
+    fn wrapping_add(self, rhs: Self) -> Self;
 }
 
 impl SignedInteger for i32 {
@@ -38,6 +40,11 @@ impl SignedInteger for i32 {
     fn from_u32(u: u32) -> i32 {
         u as i32
     }
+
+    #[inline(always)]
+    fn wrapping_add(self, rhs: i32) -> i32 {
+        i32::wrapping_add(self, rhs)
+    }
 }
 
 impl SignedInteger for i64 {
@@ -49,6 +56,11 @@ impl SignedInteger for i64 {
     #[inline(always)]
     fn from_u32(u: u32) -> i64 {
         u as i64
+    }
+
+    #[inline(always)]
+    fn wrapping_add(self, rhs: i64) -> i64 {
+        i64::wrapping_add(self, rhs)
     }
 }
 
@@ -1750,7 +1762,8 @@ fn predict<I: SignedInteger>(coefficients: &[i64], qlp_shift: u32, channel: &mut
     for split in coefficients.len()..channel.len() {
         let (predicted, residuals) = channel.split_at_mut(split);
 
-        residuals[0] += I::from_i64(
+        // corrupt residuals must not abort: the frame's CRC-16 decides
+        residuals[0] = residuals[0].wrapping_add(I::from_i64(
             predicted
                 .iter()
                 .rev()
@@ -1758,7 +1771,7 @@ fn predict<I: SignedInteger>(coefficients: &[i64], qlp_shift: u32, channel: &mut
                 .map(|(x, y)| (*x).into() * y)
                 .sum::<i64>()
                 >> qlp_shift,
-        );
+        ));
     }
 }
 
